@@ -166,7 +166,8 @@ theorem dateTime_roundtrip (i : Nat) (l : String) (hl : parseDateTimeLayouts[i]?
     toStringV (.dateTime l w) = .ok (some (.str (formatT l w))) ∧
     toDateTimeV (.str (formatT l w)) = .ok (some (.dateTime l w)) := by
   refine ⟨rfl, ?_⟩
-  simp only [toDateTimeV, parseDateTime, table_roundtrip _ _ dateTime_table_ok i l hl w hb hx hn]
+  simp only [toDateTimeV, parseDateTime,
+    parseFirstOk_of offsetInRange _ _ i w (table_roundtrip _ _ dateTime_table_ok i l hl w hb hx hn) (offsetInRange_of_bounded w hb)]
   have : parseDateTimeLayouts.getD i "" = l := by simp [List.getD, hl]
   rw [this, widen_id l w hx]
 
